@@ -111,6 +111,20 @@ def gen_scenario(rng, i):
     opts.append("--eh-frame-hdr" if rng.random() < 0.88 else "--no-eh-frame-hdr")
     if rng.random() < 0.2:
         opts += ["-z", "max-page-size=0x10000"]
+    # hand-written unwind tables (round-2 seeded change C10): functions at a NON-ZERO offset of their
+    # section whose FDE pc-begin relocation names the function symbol itself (`.long h - .`) or a
+    # named symbol + addend (`.long h_pad + n - .`) instead of GNU as's section symbol + offset. They
+    # live in an object of their own (no .cfi_* directives there, so the assembler adds no entries).
+    if i % 2 == 1 or rng.random() < 0.3:
+        ho = n_objs
+        n_objs += 1
+        for k in range(rng.choice([1, 2, 3])):
+            funcs.append(dict(name=f"hw{k}", obj=ho, nops=rng.choice([0, 1, 3, 9]), cfi=True, signal=False, comdat=False,
+                              empty=False, calls=[], copy=f"hw{k}", hand=True, pad=rng.choice([1, 2, 5, 16]),
+                              form=rng.choice(["sym", "sym", "symaddend"])))
+            names.append(f"hw{k}")
+            if rng.random() < 0.7:
+                start_calls.append(f"hw{k}")
     # an object that holds only the 4-byte .eh_frame end marker (like libgcc's crtend.o), linked
     # BEFORE other objects with FDEs; every third scenario has one, half of them single-threaded so
     # that all objects are in one file group
@@ -150,8 +164,22 @@ def emit(scn, d):
     t += [call(g) for g in scn["start_calls"]]
     t += [EXIT[arch].rstrip("\n"), "    .cfi_endproc", f'    .ascii "{mk("_start")}"']
     texts[0].append("\n".join(t))
+    hand = {}
     for f in scn["funcs"]:
         n = f["name"]
+        if f.get("hand"):
+            t = [f'.section .text.{n},"ax",%progbits', f".globl {n}_pad", f"{n}_pad:"]
+            t += ["    nop"] * f["pad"]
+            t += [f".globl {n}", f".type {n},%function", f"{n}:"]
+            if scn["kind"] == "shared":   # a PC-relative reference to an interposable symbol is refused
+                t[1:1] = [f".hidden {n}_pad", f".hidden {n}"]
+            t += ["    nop"] * f["nops"]
+            t += ["    ret", f".L{n}_end:", f'    .ascii "{mk(f["copy"])}"']
+            if arch == "aarch64":
+                t.append("    .balign 4")
+            texts[f["obj"]].append("\n".join(t))
+            hand.setdefault(f["obj"], []).append(f)
+            continue
         if f["comdat"]:
             t = [f'.section .text.{n},"axG",%progbits,{n},comdat', f".weak {n}"]
         else:
@@ -172,6 +200,23 @@ def emit(scn, d):
             if arch == "aarch64":
                 t.append("    .balign 4")
         texts[f["obj"]].append("\n".join(t))
+    for o, hf in hand.items():
+        ra, daf, caf, cfa = ((16, -8, 1, "0x0c, 7, 8") if arch == "x86_64" else (30, -8, 4, "0x0c, 31, 0"))
+        t = ['.section .eh_frame,"a",%progbits', "    .p2align 3", ".Lhcie:", "    .long .Lhcie_end - .Lhcie_body", ".Lhcie_body:",
+             "    .long 0", "    .byte 1", '    .asciz "zR"', f"    .uleb128 {caf}", f"    .sleb128 {daf}", f"    .uleb128 {ra}",
+             "    .uleb128 1", "    .byte 0x1b", f"    .byte {cfa}"]
+        if arch == "x86_64":
+            t.append("    .byte 0x90, 1")
+        t += ["    .balign 4", ".Lhcie_end:"]
+        for f in hf:
+            n = f["name"]
+            pc = f"{n} - ." if f["form"] == "sym" else f"{n}_pad + ({n} - {n}_pad) - ."
+            if f["form"] == "symaddend":
+                pc = f"{n}_pad + {f['pad'] * NOP_LEN[arch]} - ."
+            t += [f".Lhfde_{n}:", f"    .long .Lhfde_{n}_end - .Lhfde_{n}_body", f".Lhfde_{n}_body:",
+                  f"    .long .Lhfde_{n}_body - .Lhcie", f"    .long {pc}", f"    .long .L{n}_end - {n}", "    .uleb128 0",
+                  "    .balign 4", f".Lhfde_{n}_end:"]
+        texts[o].append("\n".join(t))
     objs = []
     for o, parts in texts.items():
         if parts:
@@ -505,6 +550,12 @@ def run(ctx):
         cov["links_with_end_marker_object_before_fdes"] = len(marked)
         if len(marked) < len(obs) // 5:
             raise ToolError("vacuous population: too few links with an .eh_frame end-marker object in non-last position")
+        hand_kept = sum(1 for o in obs if o["hdr"] for f in o["funcs"]
+                        if f["kept"] and f["id"] > 0 and by_id[o["id"]]["funcs"][f["id"] - 1].get("hand"))
+        cov["retained_functions_with_hand_written_fde_named_symbol_pc_begin"] = hand_kept
+        if hand_kept < len(obs) // 4:
+            raise ToolError(f"vacuous population: only {hand_kept} retained functions at a non-zero section offset with a "
+                            "hand-written FDE (named-symbol pc-begin relocation) in outputs with .eh_frame_hdr")
         for o in obs[:2]:
             s = by_id[o["id"]]
             cov["samples"].append({"id": s["id"], "arch": s["arch"], "kind": s["kind"], "opts": s["opts"], "objects": s["n_objs"],
@@ -529,6 +580,7 @@ def run(ctx):
         "coverage": cov,
         "assumptions": [
             "real links are a seeded sample; the writer model is exhaustive within its bound",
+            "pc-begin relocation forms covered: section symbol + offset (GNU as .cfi_*), named function symbol + 0 and named symbol + addend (hand-written tables, function at a non-zero offset of its section)",
             "a function is 'retained' iff its byte marker is present in a loaded section of the output; its extent is computed from the generated instruction counts",
             "empty functions (sh_size = 0) are not counted as retained functions (wild and GNU ld both drop their FDEs)",
             "AArch64 outputs are parsed, not executed; C++ programs run on x86-64 only, GNU ld-linked behaviour is the reference",
